@@ -361,3 +361,7 @@ def run(ctx):
     ctx.guard(r18_g)
     ctx.guard(r18_4)
     ctx.guard(r18_6)
+    # "additive over output intervals ... as integrated by the chosen solver": a solve continued from the returned solver
+    # state must carry the augmented state as it is -- its extra channel holds the integrand at the hand-over time
+    from . import c13
+    ctx.guard(c13.r13_2)
